@@ -271,3 +271,8 @@ def oracle(case, impl, judge):
 
 def classify(case, impl, why):
     return None
+
+
+# the GRAIN variant (grain turn loop, responses queue + user mailbox, pause) is checked by a companion script with
+# its own model, theorems (Props/C01G.lean), harness and lockstep replay; tools/check.py folds its result in
+EXTRA_CHECKS = ["tools/extra/c01g.py"]
